@@ -164,3 +164,17 @@ def run_async(chk, tier):
         if r.violation:
             chk.model_violation(r, "poll_signal with the %s adapter's readiness callback as observed" % ad,
                                 {"CbArms": pr["CbArms"], "TryFirst": pr["TryFirst"]})
+        # the same callback inside the step-level protocol model: polls racing deliveries and close()
+        if chk.pid in ("C09", "C11"):
+            import p_iterator
+            ic, istale, _ = p_iterator.extract_params()
+            if not istale:
+                what, cfg, tmo = p_iterator.model_configs(tier)[1]
+                c = dict(cfg)
+                c.update(ic)
+                c["CbArms"] = pr["CbArms"]
+                r = chk.model_check("Iterator.tla", c, invariants=["ParkedIsArmed", "ParkedWokenByClose", "NoLostWakeup"],
+                                    what="Iterator.tla with the %s callback (CbArms as observed): %s" % (ad, what),
+                                    timeout=tmo, deadlock=False, workers=6, name="%s_Iterator_%s" % (chk.pid, ad))
+                if r.violation:
+                    chk.model_violation(r, "iterator protocol with the %s adapter's callback" % ad, c)
